@@ -7,6 +7,7 @@ import (
 	"fmt"
 	"html"
 	"math"
+	"math/big"
 	"math/rand"
 	"net/url"
 	"reflect"
@@ -2242,25 +2243,49 @@ func (e *CoreExtension) filterRound(value interface{}, args ...interface{}) (int
 		}
 	}
 
-	// A float64 of this size has no fractional part left to round, and shifting it
-	// by the precision would only lose digits (1e21|round(2) gave 999999999999999900000)
-	if math.Abs(num) >= 1<<53 {
+	// Not-a-number and the infinities have nothing to round
+	if math.IsNaN(num) || math.IsInf(num, 0) {
 		return num, nil
 	}
 
-	// Apply rounding
-	var result float64
-	switch method {
-	case "ceil", "ceiling":
-		shift := math.Pow(10, float64(precision))
-		result = math.Ceil(num*shift) / shift
-	case "floor":
-		shift := math.Pow(10, float64(precision))
-		result = math.Floor(num*shift) / shift
-	default: // "common" or any other value
-		shift := math.Pow(10, float64(precision))
-		result = math.Round(num*shift) / shift
+	// Round in decimal arithmetic, on the number as it is written (the shortest decimal
+	// that identifies the float64): shifting by a power of ten in float64 rounds a second
+	// time, now up, now down (1.005*100 is 100.49999999999999, 4000000000000000.5*10
+	// loses the half, 1e21|round(2) gave 999999999999999900000)
+	exact := new(big.Rat)
+	switch v := value.(type) {
+	case int:
+		exact.SetInt64(int64(v))
+	case int64:
+		exact.SetInt64(v)
+	case uint:
+		exact.SetInt(new(big.Int).SetUint64(uint64(v)))
+	case uint64:
+		exact.SetInt(new(big.Int).SetUint64(v))
+	default:
+		if _, ok := exact.SetString(strconv.FormatFloat(num, 'f', -1, 64)); !ok {
+			exact.SetFloat64(num)
+		}
 	}
+	rounded, ok := roundRat(exact, precision, method)
+	if !ok {
+		// A precision no float64 has digits for: nothing to round off
+		return value, nil
+	}
+
+	// An integer rounded to tens, hundreds, ... stays an integer when an int can hold it
+	if precision < 0 && rounded.IsInt() {
+		switch value.(type) {
+		case int, int64, uint, uint64:
+			if rounded.Num().IsInt64() {
+				return int(rounded.Num().Int64()), nil
+			}
+			if rounded.Num().IsUint64() {
+				return rounded.Num().Uint64(), nil
+			}
+		}
+	}
+	result, _ := rounded.Float64()
 
 	// If precision is 0, return an integer (when it is one an int can hold)
 	if precision == 0 && result >= -9.2e18 && result <= 9.2e18 {
@@ -2268,6 +2293,43 @@ func (e *CoreExtension) filterRound(value interface{}, args ...interface{}) (int
 	}
 
 	return result, nil
+}
+
+// roundRat rounds x to the given number of decimal places (negative: to tens, hundreds, ...)
+// exactly. The method is "ceil", "floor" or, for anything else, half away from zero. It
+// reports false for a precision beyond the decimal places a float64 can have.
+func roundRat(x *big.Rat, precision int, method string) (*big.Rat, bool) {
+	if precision > 1100 {
+		return nil, false
+	}
+	if precision < -330 {
+		// Beyond the largest float64: every value rounds as it does to 10^330
+		precision = -330
+	}
+	digits := precision
+	if digits < 0 {
+		digits = -digits
+	}
+	scale := new(big.Rat).SetInt(new(big.Int).Exp(big.NewInt(10), big.NewInt(int64(digits)), nil))
+	if precision < 0 {
+		scale.Inv(scale)
+	}
+	scaled := new(big.Rat).Mul(x, scale)
+	// Euclidean division: the floor, as the denominator is positive
+	q := new(big.Int).Div(scaled.Num(), scaled.Denom())
+	switch method {
+	case "ceil", "ceiling":
+		if !scaled.IsInt() {
+			q.Add(q, big.NewInt(1))
+		}
+	case "floor":
+	default:
+		frac := new(big.Rat).Sub(scaled, new(big.Rat).SetInt(q))
+		if c := frac.Cmp(big.NewRat(1, 2)); c > 0 || (c == 0 && scaled.Sign() > 0) {
+			q.Add(q, big.NewInt(1))
+		}
+	}
+	return new(big.Rat).Quo(new(big.Rat).SetInt(q), scale), true
 }
 
 func (e *CoreExtension) filterNl2Br(value interface{}, args ...interface{}) (interface{}, error) {
